@@ -414,3 +414,76 @@ Proof.
       inversion U; subst. cbn [i_H]. split; [reflexivity|]. intros; discriminate.
 Qed.
 End Refs.
+
+(* ---------- "merging the same data twice changes nothing" ---------- *)
+Lemma tab_set_same t T v : tgetR t T = Some v -> tsetR t T v = t.
+Proof.
+  induction t as [|[k x] t IH]; cbn [tab_get tab_set neqb Rops]; [discriminate|].
+  destruct (Reqb k T) eqn:E; intros H.
+  - inversion H; subst. reflexivity.
+  - rewrite (IH H). reflexivity.
+Qed.
+
+Lemma merge_tab_same s o : forall merged, (forall T v, In (T, v) o -> tgetR merged T = Some v) ->
+  mergeR s merged o false = Ok merged.
+Proof.
+  induction o as [|[T v] o IH]; intros merged H; cbn [merge_tab]; [reflexivity|].
+  rewrite (H T v (or_introl eq_refl)). cbn [negb andb neqb Rops]. rewrite Reqb_refl.
+  destruct (tgetR s T); cbn [negb]; rewrite (tab_set_same _ _ _ (H T v (or_introl eq_refl)));
+    apply IH; intros T' v' Hin; apply H; right; exact Hin.
+Qed.
+
+(* the table after a second merge of the same file is the same table (not just the same map) *)
+Theorem table_idempotent a x ax : NoDup (map fst x) ->
+  mergeR a a x false = Ok ax -> mergeR ax ax x false = Ok ax.
+Proof.
+  intros Nx H. apply merge_tab_same. intros T v Hin.
+  rewrite (merge_tab_lookup _ _ _ _ _ H T), (in_last_get _ _ _ Nx Hin). reflexivity.
+Qed.
+
+Theorem range_union_idempotent (a x : option (R * R)) :
+  range_union (K:=Rops) (range_union (K:=Rops) a x) x = range_union (K:=Rops) a x.
+Proof.
+  destruct a as [[a1 a2]|], x as [[x1 x2]|]; simpl; try reflexivity;
+    unfold nmin, nmax; simpl; unfold Rleb;
+    repeat match goal with
+           | |- context [Rle_dec ?p ?q] => destruct (Rle_dec p q)
+           end;
+    try reflexivity; try (apply f_equal; apply f_equal2; lra).
+Qed.
+
+Section Idem.
+Variables splint quadS lnr : R -> R -> R.
+Variable isclose : R -> R -> bool.
+Hypothesis isclose_refl : forall a, isclose a a = true.
+Notation upd := (corr_update (K:=Rops) splint quadS lnr isclose).
+
+Theorem update_idempotent self other new : NoDup (map fst (i_tab other)) ->
+  upd self other false = (new, None) -> upd new other false = (new, None).
+Proof.
+  intros Nd U.
+  (* components of the first merge *)
+  unfold corr_update in U.
+  set (rng := range_union (i_range self) (i_range other)) in *.
+  destruct (match i_tab other with [] => Ok (i_tab self) | _ :: _ => merge_tab (i_tab self) (i_tab self) (i_tab other) false end)
+    as [tab|e1] eqn:Et; [|discriminate].
+  match type of U with context [match ?r with Ok _ => _ | Raise _ => _ end] => destruct r as [[H S0]|e2] eqn:Er end; [|discriminate].
+  destruct (inc_setup (Build_inc (K:=Rops) H S0 tab (i_Tref self) rng)) as [r0|e3] eqn:Es; [|discriminate].
+  inversion U as [Enew]. clear U.
+  (* the second merge *)
+  assert (Et' : (match i_tab other with [] => Ok tab | _ :: _ => merge_tab tab tab (i_tab other) false end) = Ok tab).
+  { destruct (i_tab other) as [|p ps] eqn:Eo; [reflexivity|]. try rewrite Eo in Et; try rewrite Eo in Nd. apply (table_idempotent (i_tab self)); assumption. }
+  subst new. unfold corr_update. cbn [i_range i_tab i_H i_S i_Tref]. fold rng.
+  unfold rng. rewrite !range_union_idempotent. fold rng. rewrite Et'.
+  destruct (isSome (i_H other) || isSome (i_S other)); [|inversion Er; subst; rewrite Es; reflexivity]. cbv zeta in Er |- *.
+  revert Er.
+  match goal with |- context [inc_setup ?x] => destruct (inc_setup x) as [r|e] end; [|discriminate].
+  destruct (i_H other) as [ho|], (i_S other) as [so|]; cbn [bind];
+    repeat match goal with |- context [ev_val ?x] => destruct (ev_val x) as [?v|?e]; cbn [bind] end;
+    try discriminate;
+    destruct (i_H self) as [h|], (i_S self) as [s0|]; cbn [negb andb bind];
+    repeat match goal with |- context [isclose ?a ?b] => destruct (isclose a b); cbn [negb bind] end;
+    try discriminate; intros Er; inversion Er; subst; rewrite ?isclose_refl; cbn [negb andb bind]; 
+    match goal with |- context [inc_setup ?x] => let E := fresh in assert (E : inc_setup x = Ok r0) by exact Es; rewrite E end; reflexivity.
+Qed.
+End Idem.
